@@ -1,6 +1,7 @@
 """C02 — async send pipeline: FIFO, whole buffers, futures tell the truth (sequential histories; interleavings: sched harness)."""
 from common import *
 from engine import run_sim_check
+import schedcheck
 import drivercases as dc
 from asyncchecks import *
 
@@ -12,7 +13,7 @@ def generate(rnd, tier):
     cases = [dc.gen_async_case(rnd, i, rnd.choice(["tcp", "tcp", "tcp", "mixed"])) for i in range(k)]
     for j, c in enumerate(cases):
         c.id = "%s-%d" % (c.id, j)
-        c.meta["profile"] = {"timeout": 0.1, "pipe": 0.05, "short": 0.5, "senderr": 0.08, "close": 0.03, "hup": 0.03}
+        c.meta["profile"] = {"timeout": 0.1, "pipe": 0.05, "short": 0.5, "senderr": 0.08, "fail_after_partial": 0.5, "close": 0.03, "hup": 0.03}
     return dc.grow(cases, dc.chooser, rnd)
 
 
@@ -30,7 +31,7 @@ def monitor(c, tr):
 
 
 SPEC = {
-    "id": "C02", "module": "Properties_C02", "theorems": THEOREMS, "harness": "sim",
+    "id": "C02", "extra": schedcheck.extra_stage(("send", "handlersend"), [schedcheck.mon_c02]), "module": "Properties_C02", "theorems": THEOREMS, "harness": "sim",
     "generate": generate, "project": project_async, "nontrivial_key": nontrivial_key, "monitor": monitor,
     "distribution": distribution,
     "rule": "asynchronous TCP sockets with send queues of buffers sized {0,1,7,10,100,3000,5000} from limited and unlimited pools; every pattern of partial kernel "
